@@ -176,12 +176,7 @@ func (c *Conn) deliver(subject, reply string, payload []byte, block bool) int {
 			vsched.WaitSend(s.Ch)
 			// like the real client, the message is placed on the channel under the lock that Close and
 			// Unsubscribe take (the send cannot block: WaitSend was granted and nothing ran since)
-			c.mu.Lock()
-			gone := s.dropInflight
-			if !gone {
-				s.Ch <- m
-			}
-			c.mu.Unlock()
+			gone := c.put(s, m)
 			if gone {
 				// the connection was closed / the subscription removed while the message was on its way
 				vsched.Note(Mon, c.canon("undeliverable "+subject))
@@ -208,6 +203,19 @@ func (c *Conn) deliver(subject, reply string, payload []byte, block bool) int {
 		}
 	}
 	return n
+}
+
+// put places m on the subscription's channel under the connection lock (as the real client delivers under
+// the lock that Close and Unsubscribe take); it reports true if the subscription is gone. A send on a channel
+// the service has already closed panics, as it would in the real client's read loop; the lock is released.
+func (c *Conn) put(s *Sub, m *nats.Msg) (gone bool) {
+	c.mu.Lock()
+	defer c.mu.Unlock()
+	if s.dropInflight {
+		return true
+	}
+	s.Ch <- m
+	return false
 }
 
 // Inject delivers a message from the outside world (a gateway) to the matching subscriptions,
@@ -246,12 +254,7 @@ func (c *Conn) Arrive(f Inflight) bool {
 		return false
 	}
 	vsched.WaitSend(f.s.Ch)
-	c.mu.Lock()
-	drop = f.s.dropInflight
-	if !drop {
-		f.s.Ch <- f.m
-	}
-	c.mu.Unlock()
+	drop = c.put(f.s, f.m)
 	if drop {
 		vsched.Note(Mon, c.canon("arrive-dropped "+f.m.Subject))
 		return false
@@ -280,6 +283,7 @@ func (c *Conn) ChanQueueSubscribe(subject, queue string, ch chan *nats.Msg) (*na
 	}
 	s := &Sub{Subject: subject, Queue: queue, Ch: ch, Active: true}
 	s.NS = nats.VerifNewSubscription(subject, queue, func(op string) error {
+		c.emit(fmt.Sprintf("%s %s", op, subject))
 		c.mu.Lock()
 		was := s.Active
 		switch op {
@@ -292,7 +296,6 @@ func (c *Conn) ChanQueueSubscribe(subject, queue string, ch chan *nats.Msg) (*na
 			s.dropInflight = true
 		}
 		c.mu.Unlock()
-		c.emit(fmt.Sprintf("%s %s", op, subject))
 		if !was {
 			return nats.ErrBadSubscription
 		}
@@ -306,6 +309,8 @@ func (c *Conn) ChanQueueSubscribe(subject, queue string, ch chan *nats.Msg) (*na
 }
 
 func (c *Conn) Close() {
+	// the observation (a scheduling point) comes first: the caller may be preempted right before Close takes effect
+	c.emit("close")
 	c.mu.Lock()
 	c.Closed++
 	for _, s := range c.Subs {
@@ -313,7 +318,6 @@ func (c *Conn) Close() {
 		s.dropInflight = true
 	}
 	c.mu.Unlock()
-	c.emit("close")
 }
 
 // ActiveSubs returns the subjects of subscriptions that still have interest.
